@@ -385,12 +385,58 @@ def tables_section():
     return "\n".join([encode_sets(), void_elements(), raw_text_tables(), transformer_kinds(), html_visitor_names(), marketing_defaults()])
 
 
+# ---------------------------------------------------------------- the analyses' response block (C19)
+ANALYSIS_BLOCK = [
+    r"let example_status_code = example\.response_status_code\.unwrap_or\(0\);",
+    r"let \(final_status_code, backend_status_code\) =\s*action\.get_final_status_code_with_fallback\(example_status_code, 200, &mut unit_trace\);",
+    r"let headers = action\.filter_headers\(Vec::new\(\), backend_status_code, false, Some\(&mut unit_trace\)\);",
+    r"if let Some\(mut body_filter\) = action\.create_filter_body\(backend_status_code, &\[\]\) \{",
+    r"let should_log_request = action\.should_log_request\(true, final_status_code, Some\(&mut unit_trace\)\);",
+]
+
+
+def analysis_block():
+    """explain_request.rs and impact.rs carry the same response block: the skeleton document and the sequence of calls
+    RIO.Pipeline.analysis_response transcribes (request phase first, fallback 200, filter_headers on the BACKEND code with
+    no headers and no rule-ids header, body filters created with the backend code and no headers, log decision on the
+    FINAL code)."""
+    skels = []
+    for rel in ("src/api/explain_request.rs", "src/api/impact.rs"):
+        src = read(rel)
+        m = re.search(r'let mut body = "((?:[^"\\]|\\.)*)";', src, re.S)
+        if not m:
+            raise TranslatorError(f"{rel}: the skeleton document was not found")
+        skels.append(unescape_rust(m.group(1)))
+        pos = 0
+        for pat in ANALYSIS_BLOCK:
+            mm = re.compile(pat, re.S).search(src, pos)
+            if not mm:
+                raise TranslatorError(f"{rel}: the response block no longer has the shape the pipeline model transcribes (missing or out of order: {pat})")
+            pos = mm.end()
+        if not re.search(r"response: Response \{\s*status_code: final_status_code,\s*headers,\s*body: body\.to_string\(\),\s*\},", src):
+            raise TranslatorError(f"{rel}: the Response literal no longer reports final_status_code / headers / body")
+    if skels[0] != skels[1]:
+        raise TranslatorError("explain_request.rs and impact.rs use different skeleton documents")
+    src = read("src/action/mod.rs")
+    m = re.search(r"pub fn get_final_status_code_with_fallback\((.*?)\n    \}\n", src, re.S)
+    body = m.group(1) if m else ""
+    for pat in (r"let action_status_code = self\.get_status_code\(0, Some\(unit_trace\)\);",
+                r"if action_status_code != 0 \{\s*return \(action_status_code, action_status_code\);\s*\}",
+                r"let backend_status_code = if response_status_code == 0 \{\s*fallback_status_code\s*\} else \{\s*response_status_code\s*\};",
+                r"let final_status_code = self\.get_status_code\(backend_status_code, Some\(unit_trace\)\);",
+                r"\(final_status_code, backend_status_code\)"):
+        if not re.search(pat, body, re.S):
+            raise TranslatorError("action/mod.rs: get_final_status_code_with_fallback no longer has the shape the pipeline model transcribes")
+    return "Definition ext_analysis_skeleton : str :=\n  " + coq_str(skels[0]) + ".\n"
+
+
 SECTIONS = [
     ("Headers", ["RIO.Headers"], header_action_table),
     ("Encodings", [], supported_encodings),
     ("Serde", ["RIO.Json"], serde_schemas),
     ("PanicSites", [], panic_sites_section),
     ("Tables", [], tables_section),
+    ("Analysis", [], analysis_block),
 ]
 
 
